@@ -66,9 +66,28 @@ type Intrinsic struct {
 
 // Atom: opaque value with concrete identity and symbolic rank (CIDs, keys).
 type Atom struct {
-	ID   int
-	Fam  string
-	Rank *smt.Term
+	ID    int
+	Fam   string
+	Key   string
+	ranks map[string]*smt.Term // per textual form (tag): the order of different encodings of one value may differ
+}
+
+// RankOf returns the symbolic rank of the atom's textual form `tag`; ranks of one family+tag are pairwise distinct.
+func (a *Atom) RankOf(in *Interp, tag string) *smt.Term {
+	if r, ok := a.ranks[tag]; ok {
+		return r
+	}
+	c := in.Ctx
+	r := c.Var(fmt.Sprintf("rank_%s_%s_%s", a.Fam, tag, a.Key), 16)
+	a.ranks[tag] = r
+	for _, o := range in.atomList {
+		if o != a && o.Fam == a.Fam {
+			if or, ok := o.ranks[tag]; ok {
+				in.assertPC(c.Not(c.Cmp(smt.OpEq, r, or)))
+			}
+		}
+	}
+	return r
 }
 
 // Rope is a string/byte sequence made of segments.
